@@ -217,6 +217,15 @@ func genC09Doc(t *rapid.T, tmpl string) *C09Val {
 				v.Elems = append(v.Elems, &C09Val{K: "bytes", B: rapid.SliceOfN(rapid.Byte(), 0, 20).Draw(t, "bytes")})
 			}
 		}
+		// keys that name no field, holding any tree (nested containers included): what the builder skips must
+		// neither disturb the fields around it nor outlive the call - every cut inside the skipped value is
+		// followed, in the same process, by the later cuts of the same document
+		for i, n := 0, rapid.IntRange(0, 2).Draw(t, "nunknown"); i < n; i++ {
+			at := rapid.IntRange(0, len(v.Keys)).Draw(t, "unknownAt")
+			val := genC09Tree(t, rapid.IntRange(0, 1).Draw(t, "unknownDepth"))
+			v.Keys = append(v.Keys[:at:at], append([]string{fmt.Sprintf("nofield%d", i)}, v.Keys[at:]...)...)
+			v.Elems = append(v.Elems[:at:at], append([]*C09Val{val}, v.Elems[at:]...)...)
+		}
 		return v
 	}
 	if tmpl == "top-scalar" {
